@@ -55,10 +55,18 @@ def enumerate_cases(tier, seed):
                     yield {"chroot": ch, "setuid": su, "setgid": sg, "fail": None, "real": False, "ids": ids}
                     for c in calls:
                         yield {"chroot": ch, "setuid": su, "setgid": sg, "fail": c, "real": False, "ids": ids}
+                if ch:
+                    # the directory the server is started from: the root itself, below it, and a sibling whose name extends
+                    # the root's name ('<root>-private')
+                    for cwd in ("root", "sub", "sibling"):
+                        yield {"chroot": ch, "setuid": su, "setgid": sg, "fail": None, "real": False, "ids": 0, "cwd": cwd}
     for ch, su, sg in ((True, True, True), (True, False, False), (False, True, True)):
         yield {"chroot": ch, "setuid": su, "setgid": sg, "fail": None, "real": True}
     for ch, su, sg in ((True, True, True), (True, False, False), (False, True, True), (False, True, False), (False, False, True)):
         yield {"chroot": ch, "setuid": su, "setgid": sg, "fail": None, "real": True, "unpriv": True}
+    for cwd in ("root", "sub", "sibling"):
+        yield {"chroot": True, "setuid": True, "setgid": True, "fail": None, "real": True, "cwd": cwd}
+        yield {"chroot": True, "setuid": False, "setgid": False, "fail": None, "real": True, "cwd": cwd}
 
 
 def _write_conf(base, root, case):
@@ -243,6 +251,21 @@ def _predicates(case, trace, raised, server, root):
     return fails
 
 
+def _startdir(case, base, root):
+    """the directory the server is started from (None = somewhere unrelated)"""
+    cwd = case.get("cwd")
+    if cwd == "root":
+        return root
+    if cwd == "sub":
+        return os.path.join(root, "sub")
+    if cwd == "sibling":
+        d = root + "-private"
+        os.makedirs(d, exist_ok=True)
+        os.chmod(d, 0o755)
+        return d
+    return None
+
+
 def _real_child(case, base, root):
     """fork; perform the REAL init_security; report cwd / escape / ids.  Returns dict or None if not permitted."""
     import grp
@@ -272,7 +295,7 @@ def _real_child(case, base, root):
         try:
             os.close(r)
             logger.log = lambda m: None
-            os.chdir(outside)
+            os.chdir(_startdir(case, base, root) or outside)
             if case.get("unpriv"):
                 # become an ordinary user for real, then ask for the configured drop: every first step must be refused
                 os.setgroups([])
@@ -322,7 +345,8 @@ def check_case(case, ctx):
     base, root = world.build([["readme.txt", "f", "x\n"], ["sub/f.txt", "f", "y\n"]], "c19")
     try:
         ctx.label("chroot:%s" % case["chroot"], "setuid:%s" % case["setuid"], "setgid:%s" % case["setgid"],
-                  "fail:%s" % case["fail"], "real" if case["real"] else "recorded", "ids:%s" % case.get("ids", 0))
+                  "fail:%s" % case["fail"], "real" if case["real"] else "recorded", "ids:%s" % case.get("ids", 0),
+                  "started-from:%s" % case.get("cwd", "unrelated"))
         if case["chroot"] or case["setuid"] or case["setgid"] or case["fail"]:
             ctx.nontriv()
         if case["real"]:
@@ -363,6 +387,10 @@ def check_case(case, ctx):
         raised = None
         server = None
         drive.reset_globals()
+        start = _startdir(case, base, root)
+        oldcwd = os.getcwd()
+        if start:
+            os.chdir(start)
         with _Patches(trace, case["fail"], case.get("ids", 0)):
             try:
                 server = initialization.initialize(conf)
@@ -370,6 +398,7 @@ def check_case(case, ctx):
                 if isinstance(e, (KeyboardInterrupt, SystemExit)):
                     raise
                 raised = e
+        os.chdir(oldcwd)
         drive._mime_inited = None  # initialize() re-ran init_mimetypes
         ctx.sample({"case": case, "trace": [list(map(str, t)) for t in trace if t[0] != "config.set"]},
                    cls="%s%s%s" % (case["chroot"], case["setuid"], case["fail"]))
